@@ -147,14 +147,16 @@ class FQ:
         return self.__rdiv__(other)
 
     def __pow__(self: T_FQ, other: int) -> T_FQ:
-        if other == 0:
-            return type(self)(1)
-        elif other == 1:
-            return type(self)(self.n)
-        elif other % 2 == 0:
-            return (self * self) ** (other // 2)
-        else:
-            return ((self * self) ** int(other // 2)) * self
+        # Iterative square-and-multiply: recursing once per exponent bit
+        # overflows the interpreter stack for large exponents.
+        o = type(self)(1)
+        t = self
+        while other > 0:
+            if other & 1:
+                o = o * t
+            other >>= 1
+            t = t * t
+        return o
 
     def __eq__(self: T_FQ, other: Any) -> bool:
         if isinstance(other, FQ):
@@ -289,14 +291,16 @@ class FQP:
         return self.__div__(other)
 
     def __pow__(self: T_FQP, other: int) -> T_FQP:
-        if other == 0:
-            return type(self)([1] + [0] * (self.degree - 1))
-        elif other == 1:
-            return type(self)(self.coeffs)
-        elif other % 2 == 0:
-            return (self * self) ** (other // 2)
-        else:
-            return ((self * self) ** int(other // 2)) * self
+        # Iterative square-and-multiply: recursing once per exponent bit
+        # overflows the interpreter stack for large exponents.
+        o = type(self)([1] + [0] * (self.degree - 1))
+        t = self
+        while other > 0:
+            if other & 1:
+                o = o * t
+            other >>= 1
+            t = t * t
+        return o
 
     # Extended euclidean algorithm used to find the modular inverse
     def inv(self: T_FQP) -> T_FQP:
